@@ -13,7 +13,7 @@ IV = 250 * MS          # used by the generators only (gaps around bucket boundar
 TWO53 = 1 << 53
 
 ENTRY = ["EDo", "EDoAcc", "EDoFb", "EDoFbAcc", "EAllowAccept", "EAllowReject"]
-CTX = ["CNone", "CLive", "CDone"]
+CTX = ["CNone", "CLive", "CDone", "CLive"]   # 3: live at entry, cancelled by the request itself: CLive for the model
 OUT = ["OOk", "OErrU", "OErrA", "OPanic", "OErrSU", "OErrSUW", "OCanceled", "ODeadline", "OErrFB", "OPanicSU"]
 RES = ["RNil", "RUnavailable", "RErrU", "RErrA", "RPanic", "RFallback", "RCtxDone", "ROther", "RErrSUW", "RDeadline",
        "RPanicSU"]
@@ -38,13 +38,14 @@ SQL_KINDS = list(range(7, 22))
 SQL_QUERY_KINDS = (11, 12, 13, 14, 17, 18, 19, 20)
 DERR = ["DNil", None, "DCtxCanceled", "DCtxDeadline", "DBreakerUnavailable", "DRedisNil", "DWrappedRedisNil",
         "DSqlNoRows", "DSqlTxDone", "DSqlAcceptable", "DOther", "DPanic", "DWrappedCanceled", None, "DSqlConnErr",
-        "DSqlScanFail", "DSqlScanDeadline"]
+        "DSqlScanFail", "DSqlScanDeadline", "DWrappedDeadline", "DWrappedBreakerUnavailable", "DWrappedSqlNoRows",
+        "DWrappedSqlTxDone"]
 SQL_CUSTOM = (10, 11, 12, 21, 22, 31, 32)    # 10*i + n: accepted iff 1 <= i <= n
 
 
 def sql_classes(k):
     """(class, code) pairs a sqlx wrapper kind understands"""
-    cl = [(c, 0) for c in (0, 2, 3, 4, 7, 8, 9, 10, 12)] + [(13, x) for x in SQL_CUSTOM]
+    cl = [(c, 0) for c in (0, 2, 3, 4, 7, 8, 9, 10, 12, 17, 18, 19, 20)] + [(13, x) for x in SQL_CUSTOM]
     if k != 8:
         cl.append((14, 0))
     if k in SQL_QUERY_KINDS:
@@ -52,9 +53,9 @@ def sql_classes(k):
     return cl
 # wrapper executors: case["w"] -> (go package, overlay test file, downstream classes it understands)
 WPKG = {
-    "grpcc": ("zrpc/internal/clientinterceptors", "grpc_client_verif_test.go", [0], [0, 1, 2, 3, 4, 10, 11, 12]),
-    "grpcs": ("zrpc/internal/serverinterceptors", "grpc_server_verif_test.go", [1, 2], [0, 1, 2, 3, 4, 10, 11, 12]),
-    "redis": ("core/stores/redis", "redis_verif_test.go", [3, 4, 5, 6], [0, 2, 3, 4, 5, 6, 10, 11, 12]),
+    "grpcc": ("zrpc/internal/clientinterceptors", "grpc_client_verif_test.go", [0], [0, 1, 2, 3, 4, 10, 11, 12, 17, 18]),
+    "grpcs": ("zrpc/internal/serverinterceptors", "grpc_server_verif_test.go", [1, 2], [0, 1, 2, 3, 4, 10, 11, 12, 17, 18]),
+    "redis": ("core/stores/redis", "redis_verif_test.go", [3, 4, 5, 6], [0, 2, 3, 4, 5, 6, 10, 11, 12, 17, 18]),
     "sql": ("core/stores/sqlx", "sqlx_verif_test.go", SQL_KINDS, [0, 2, 3, 4, 7, 8, 9, 10, 12]),
     "rest": ("rest/handler", "rest_verif_test.go", [], []),
 }
@@ -300,12 +301,13 @@ class C01(Property):
         # (5) every entry point x context mode x outcome, admitted and rejected
         calls = []
         for e in range(6):
-            for c in range(3):
+            for c in range(4):
                 for o in (range(len(OUT)) if e < 4 else (0,)):
                     calls.append(call(e, c, o, gap=MS, dur=3 * MS))
-        calls += [fail(gap=0) for _ in range(60)]
+        cs.append({"base": B, "calls": calls})
+        calls = [fail(gap=0) for _ in range(60)]
         for e in range(6):
-            for c in range(3):
+            for c in range(4):
                 for o in (range(len(OUT)) if e < 4 else (0,)):
                     calls.append(call(e, c, o, gap=MS, dur=3 * MS, m=(0 if (e + o) % 2 else big)))
         cs.append({"base": B, "calls": calls})
@@ -314,7 +316,7 @@ class C01(Property):
         # admits: every Do* entry point x {no ctx, live ctx}
         calls = []
         for e in range(4):
-            for c in range(2):
+            for c in (0, 1, 3):
                 for o in (4, 5, 6, 7, 8, 9):
                     calls.append(call(e, c, o, gap=3 * SEC, dur=MS))
         cs.append({"base": B + 3, "calls": calls})
@@ -336,6 +338,8 @@ class C01(Property):
 
     def _gap(self, rng, tempo):
         r = rng.random()
+        if r < 0.004:       # hours .. months: span computations far beyond the window, int64 nanoseconds
+            return rng.choice([3600 * SEC, 10 ** 14 + 1, 4294967296 * MS + 7, (1 << 53) + 12345])
         if tempo == "dense":
             if r < 0.55:
                 return 0
@@ -443,7 +447,7 @@ class C01(Property):
             bad = rng.random() < pfail[i]
             e = rng.choice([0, 1, 2, 2, 3, 3, 5 if bad else 4])
             o = rng.choice(BAD_OUT) if bad else rng.choice(GOOD_OUT)
-            c = rng.choices([0, 1, 2], weights=(6, 3, 1))[0]
+            c = rng.choices([0, 1, 2, 3], weights=(6, 3, 1, 1))[0]
             via = rng.choice([0, 1]) if insts[i] == 1 else 0
             dur = 0 if rng.random() < 0.7 else rng.randrange(0, IV)
             gap = self._gap(rng, tempo) if depth == 0 else rng.choice([0, 0, 1, 1000, rng.randrange(0, IV)])
@@ -517,6 +521,17 @@ class C01(Property):
         ops.append({"call": {"c": [2, 0, 2, 0, 0, MS, 0, 0, 1], "in": {"c": [1, 1, 0, 0, 1, 0, 0, 0, 0],}}})
         ops += [{"call": leaf(i, 0, 0, gap=0, c=2)} for i in range(3)]
         cs.append({"base": B + 1, "insts": [1, 1, 0], "mops": ops})
+        # (c) every entry point x context mode x {method, package-level helper} on a name: while it
+        # admits (good requests) and while it is open (after failures; draws 0)
+        ops = []
+        for phase in (0, 1):
+            for e in range(6):
+                for c in range(4):
+                    for via in (0, 1):
+                        ops.append({"call": leaf(phase, e, [0, 4][phase] if e < 4 else 0, gap=MS, m=0, via=via, c=c)})
+            if phase == 0:
+                ops += [{"call": leaf(1, 0, 1, gap=0, m=big, via=1)} for _ in range(30)]
+        cs.append({"base": B + 2, "insts": [1, 1], "mops": ops})
         return cs
 
     def _wrapper_case(self, rng):
@@ -605,7 +620,7 @@ class C01(Property):
             mix = rng.choice(["fail", "ok", "alt", "burst", "rand", "rand"])
             pfail = rng.random()
             base = rng.choice([10 ** 12, 10 ** 15 + rng.randrange(IV), 3 * 10 ** 17 + rng.randrange(10 ** 9)])
-            ctxw = rng.choice([(1, 0, 0), (6, 3, 1), (6, 3, 2)])
+            ctxw = rng.choice([(1, 0, 0, 0), (6, 3, 1, 1), (6, 3, 2, 2)])
             entries = rng.choice([[0, 1, 2, 3, 4, 5], [0, 1, 2, 3, 4, 5], [2, 3], [4, 5], [0, 1]])
             calls = []
             burst_fail, burst_left = True, 0
@@ -625,7 +640,7 @@ class C01(Property):
                 else:
                     bad = rng.random() < pfail
                 e = rng.choice(entries)
-                c = rng.choices([0, 1, 2], weights=ctxw)[0]
+                c = rng.choices([0, 1, 2, 3], weights=ctxw)[0]
                 if e == 4 and bad:
                     e = 5
                 elif e == 5 and not bad:
@@ -844,7 +859,7 @@ class C01(Property):
         for e in sorted(set(k[0] for k in case["calls"])):
             fs.append("entry_" + ENTRY[e])
         for c in sorted(set(k[1] for k in case["calls"])):
-            fs.append("ctx_" + CTX[c])
+            fs.append("ctx_cancelled_during_request" if c == 3 else "ctx_" + CTX[c])
         for o in sorted(set(k[2] for k in case["calls"])):
             fs.append("out_" + OUT[o])
         for r in sorted(set(o[0] for o in obs["obs"])):
